@@ -110,6 +110,16 @@ impl Executor for StatefulExecutor {
             .min()
             .unwrap_or_default()
             .map_or((false, None), |t| (t.is_global, Some(t.timeout)));
+            #[cfg(feature = "verif")]
+            crate::verif::emit(
+                "PickLimit",
+                &format!(
+                    "\"index\":{index},\"per_test_ms\":{},\"left_ms\":{},\"chosen_ms\":{},\"is_global\":{is_global_timeout}",
+                    testcase.config.timeout.map_or(-1, |d| d.as_millis() as i64),
+                    timeout_left().map_or(-1, |d| d.as_millis() as i64),
+                    timeout.map_or(-1, |d| d.as_millis() as i64),
+                ),
+            );
             let span = trace_span!("execution", expression = &testcase.shell_expression, timeout = ?&timeout);
             let _enter = span.enter();
 
@@ -142,6 +152,22 @@ impl Executor for StatefulExecutor {
                 .run(&name, &testcase, context)
                 .map_err(|err| ExecutionError::failed(index, err))?;
             trace!("{output:?}");
+
+            #[cfg(feature = "verif")]
+            crate::verif::emit(
+                "ExecEnd",
+                &format!(
+                    "\"index\":{index},\"status\":\"{}\",\"code\":{}",
+                    match output.exit_code {
+                        ExitStatus::Code(_) => "code",
+                        ExitStatus::Timeout(_) => "timeout",
+                        ExitStatus::Skipped => "skipped",
+                        ExitStatus::Detached => "detached",
+                        ExitStatus::Unknown => "unknown",
+                    },
+                    output.exit_code.as_code(),
+                ),
+            );
 
             // handle exit code
             let skip_document_code = testcase.config.get_skip_document_code();
